@@ -34,7 +34,7 @@ class ComposedNode(ConfigNode):
         def set_child(self, name, value):
             value = ConfigNode(value, **self._get_child_kwargs())
             self._children[name] = value
-            if hasattr(self, '_delete'): # not while unpickling/copying (see _get_child_kwargs): the child comes with its flags, and those of its own children, as they were
+            if '_delete' in self.__dict__: # not while unpickling/copying (see _get_child_kwargs): the child comes with its flags, and those of its own children, as they were
                 value._propagate_implicit_values()
             return value
 
@@ -389,7 +389,7 @@ class ComposedNode(ConfigNode):
 
     def _get_child_kwargs(self, child=None):
         ret = {}
-        if not hasattr(self, '_delete'): # happens when unpickling! children are being populated before attributes are set, but its ok since we assume pickled objects are ok anyway, so no need to fix things
+        if '_delete' not in self.__dict__: # happens when unpickling! children are being populated before attributes are set, but its ok since we assume pickled objects are ok anyway, so no need to fix things
             return ret
         ret['implicit_delete'] = notnone_or(self._delete, self._default_delete or self._implicit_delete)
         ret['implicit_allow_new'] = notnone_or(self._allow_new, self._implicit_allow_new)
@@ -398,7 +398,7 @@ class ComposedNode(ConfigNode):
         return ret
 
     def _propagate_implicit_values(self):
-        if not hasattr(self, '_delete'): # happens when unpickling! children are being populated before attributes are set, but its ok since we assume pickled objects are ok anyway, so no need to fix things
+        if '_delete' not in self.__dict__: # happens when unpickling! children are being populated before attributes are set, but its ok since we assume pickled objects are ok anyway, so no need to fix things
             return
         if self._implicit_delete is None and self._implicit_allow_new is None and self._implicit_safe is None:
             return
